@@ -22,7 +22,7 @@ META = {
             "{Content-Length, chunked}) restricted to the consistent rows, with the set of admissible outcomes per row "
             "and the table-sanity invariants; each row is concretised into several real requests (exact boundary sizes "
             "cap-1/cap/cap+1 obtained by padding zstd frames with skippable frames and gzip members with FEXTRA, "
-            "zstd frame headers rewritten to lie, gzip ISIZE rewritten, 16-32 MiB bombs) sent to real apps (raw WSGI "
+            "zstd frame headers rewritten to lie, gzip ISIZE rewritten, 8-32 MiB bombs) sent to real apps (raw WSGI "
             "and chunked HTTP through waitress); the bytes handed to the RPC layer, the bytes produced by the "
             "decompressor objects and the peak traced allocation are recorded and TLC judges every observation with "
             "Decode!Conforms.",
@@ -323,7 +323,7 @@ def concretise(case: dict, cr: Crafter, variant: int):
 
 
 # ------------------------------------------------------------------------------------------------ sandbox worker
-TIMEOUT_S = 5.0
+TIMEOUT_S = 4.0
 
 
 def _worker(conn, bomb_bytes: int) -> None:
@@ -441,8 +441,9 @@ def run(ctx: Ctx) -> None:
                 "concrete cap, Content-Encoding spelling, wire body hash) requests executed; variant 0 of every row uses "
                 "the exact boundary sizes (cap-1 / cap / cap+1), further variants are seeded. Oracle is set-valued for "
                 "rows with several faults. A request that gets no response within "
-                f"{TIMEOUT_S:.0f} s (twice, in fresh worker processes) is recorded as status 0.")
-    bomb_bytes = (16 if quick else 32) * 1024 * 1024
+                f"{TIMEOUT_S:.0f} s and, retried in a fresh worker process, within {3 * TIMEOUT_S:.0f} s (x4 for bombs) "
+                "is recorded as status 0 (in-process requests normally answer in milliseconds).")
+    bomb_bytes = (8 if quick else 32) * 1024 * 1024
     ctx.assume("decompressor output is counted by wrappers around zstandard.ZstdDecompressor and vgi_rpc._codec.zlib",
                "what reaches the RPC layer is captured by wrapping _resources._get_request_stream",
                "chunked transfer goes through waitress on 127.0.0.1 (which de-chunks and sets CONTENT_LENGTH)",
@@ -485,8 +486,8 @@ def run(ctx: Ctx) -> None:
                 is_bomb = case["dec"] == "bomb"
                 msg = (capv, disabled, hdr, body, None if is_bomb else plain, case["transfer"], measure)
                 o = box.call(msg, TIMEOUT_S * (4 if is_bomb else 1))
-                if o is None:
-                    o = box.call(msg, TIMEOUT_S * (4 if is_bomb else 1))       # confirm in a fresh worker
+                if o is None:                                       # confirm in a fresh worker, three times as patient
+                    o = box.call(msg, 3 * TIMEOUT_S * (4 if is_bomb else 1))
                 hang = o is None
                 if hang:
                     o = {"status": 0, "reached": False, "equal": False, "capv": capv, "produced": 0, "peak": 0,
